@@ -9,10 +9,15 @@ Import ListNotations.
 From CV Require Import Model.M_flow.
 Open Scope Z_scope.
 
-Definition astate := (fin * bool * bool)%type.   (* descriptor, serving = dummy?, pending_req = 0? *)
+(** descriptor, serving = dummy?, pending_req = 0?, and the request-identity bits:
+    (the serving slot holds an unclosed request?, the receiver of the running method is KNOWN to be the serving
+     request?, a request was dropped from the slot unclosed?) *)
+Definition xstate := (bool * bool * bool)%type.
+Definition astate := (fin * bool * bool * xstate)%type.
 
 Definition alpha (st : state) : astate :=
-  (sfin st, serving (sid st) =? 0, pending_req (sid st) =? 0).
+  (sfin st, serving (sid st) =? 0, pending_req (sid st) =? 0,
+   (is_open (sid st), rsk (sid st), lost_req (sid st))).
 
 (** what a callback may raise.  A callback raising StopIteration is not distinguished from one raising
     an arbitrary Exception (inside Request.run both are handled by the same clauses); only the body
@@ -48,24 +53,42 @@ Section A.
   Variable showtb : bool.
   Variable throw : bool.
 
-  Definition a_effect (a : action) (x : astate) : list astate :=
-    let '(f, sz, pz) := x in
-    let sz' := match a with LoadServing => pz | ClearServing => true | _ => sz end in
-    let pz' := match a with NewRequest => false | _ => pz end in
+  (** the identity bits after a completed action; what cannot be known abstractly goes both ways *)
+  Definition x_effect (a : action) (xs : xstate) : list xstate :=
+    let '(op, rs, lost) := xs in
     match a with
-    | SetResponseOfExc => [(fin_effect showtb sz true a f, sz', pz'); (fin_effect showtb sz false a f, sz', pz')]
-    | _ => [(fin_effect showtb sz false a f, sz', pz')]
+    | LoadServing => [(true, false, lost || op); (false, false, lost || op)]
+    | ClearServing => [(false, false, lost || op)]
+    | SetClosed => if rs then [(false, rs, lost)] else [(false, rs, lost); (op, rs, lost)]
+    | _ => [xs]
     end.
 
+  Definition a_effect (a : action) (x : astate) : list astate :=
+    let '(f, sz, pz, xs) := x in
+    let sz' := match a with LoadServing => pz | ClearServing => true | _ => sz end in
+    let pz' := match a with NewRequest => false | _ => pz end in
+    flat_map (fun xs' =>
+      match a with
+      | SetResponseOfExc => [(fin_effect showtb sz true a f, sz', pz', xs'); (fin_effect showtb sz false a f, sz', pz', xs')]
+      | _ => [(fin_effect showtb sz false a f, sz', pz', xs')]
+      end) (x_effect a xs).
+
   Definition a_raise (a : action) (e : exn) (x : astate) : astate :=
-    let '(f, sz, pz) := x in (fin_raise a e f, sz, pz).
+    let '(f, sz, pz, xs) := x in (fin_raise a e f, sz, pz, xs).
 
   Definition a_cur (e : option exn) (x : astate) : astate :=
-    let '(f, sz, pz) := x in (fin_with_cur e f, sz, pz).
+    let '(f, sz, pz, xs) := x in (fin_with_cur e f, sz, pz, xs).
+
+  (** the receiver changes at a call and is restored afterwards *)
+  Definition a_enter (g : fname) (x : astate) : astate :=
+    let '(f, sz, pz, (op, rs, lost)) := x in (f, sz, pz, (op, recv_known g rs, lost)).
+  Definition a_leave (x : astate) : astate :=
+    let '(f, sz, pz, (op, rs, lost)) := x in (f, sz, pz, (op, false, lost)).
 
   Definition a_eval_flag (x : astate) (f : flag) : list bool :=
-    let '(fi, sz, _) := x in
+    let '(fi, sz, _, (op, rs, _)) := x in
     match f with
+    | FClosed => if rs then (if sz then [true] else [negb op]) else [true; false]
     | FStartedResponse => [iterating fi]
     | FResponseHasClose => [negb (init_trapped fi)]
     | FThrowErrors => [throw]
@@ -90,8 +113,13 @@ Section A.
     decide equality; try apply bool_dec; try apply Z.eq_dec.
     decide equality. apply exn_dec.
   Defined.
+  Definition xstate_dec : forall a b : xstate, {a = b} + {a <> b}.
+  Proof. decide equality; try apply bool_dec. decide equality; apply bool_dec. Defined.
   Definition astate_dec : forall a b : astate, {a = b} + {a <> b}.
-  Proof. decide equality; try apply bool_dec. decide equality; try apply bool_dec. apply fin_dec. Defined.
+  Proof.
+    decide equality; try apply xstate_dec. decide equality; try apply bool_dec.
+    decide equality; try apply bool_dec. apply fin_dec.
+  Defined.
   Definition outcome_dec : forall a b : outcome, {a = b} + {a <> b}.
   Proof. decide equality. apply exn_dec. Defined.
   Definition res_dec : forall a b : outcome * astate, {a = b} + {a <> b}.
@@ -179,7 +207,7 @@ Section A.
                   | Raised e =>
                     match find_handler hs e with
                     | Some h =>
-                      let saved := cur_exn (fst (fst (snd r))) in
+                      let saved := cur_exn (fst (fst (fst (snd r)))) in
                       option_map (map (fun rh => (fst rh, a_cur saved (snd rh))))
                                  (aexec af param h (a_cur (Some e) (snd r)))
                     | None => Some [r]
@@ -203,7 +231,7 @@ Section A.
       | Assign _ => Some [(Normal, x)]
       | Raise (Some e) => Some [(Raised e, x)]
       | Raise None =>
-        Some [(Raised (match cur_exn (fst (fst x)) with Some e => e | None => XException end), x)]
+        Some [(Raised (match cur_exn (fst (fst (fst x))) with Some e => e | None => XException end), x)]
       | Return => Some [(Returned, x)]
       | Loop body =>
         let step := aexec af param body in
@@ -221,8 +249,8 @@ Section A.
         | None => None
         end
       | Call g =>
-        option_map (map (fun r => (match fst r with Returned => Normal | o => o end, snd r)))
-                   (aexec af (pparam g) (prog g) x)
+        option_map (fun R => dedupe (map (fun r => (match fst r with Returned => Normal | o => o end, a_leave (snd r))) R))
+                   (aexec af (pparam g) (prog g) (a_enter g x))
       | CallParam => aexec af Skip param x
       end
     end.
